@@ -343,12 +343,24 @@ def check_scoped_and_defaults(v, case, env, exp_calls, scratch, i):
 
     inputs = mapgen.make_inputs(case)
     dflt = {r: inputs[r] for r, spec in case["roots"].items() if spec["kind"] == "scalar"} if i % 2 else {}
+    # ... and (every second of these cases) array roots that ARE given as inputs additionally have a declared default of ANOTHER
+    # shape and other values: the input wins, for the values and for the shapes derived from them
+    over = {}
+    if i % 2 == 0:
+        for r, spec in case["roots"].items():
+            if spec["kind"] in ("list", "ndarray") and spec["axes"]:
+                shp = tuple(np.shape(inputs[r]))
+                big = np.empty(tuple(d + 1 for d in shp), dtype=object)
+                for idx in np.ndindex(*big.shape):
+                    big[idx] = f"{r}-declared-default<{','.join(map(str, idx))}>"
+                over[r] = big.tolist() if spec["kind"] == "list" else big
     extra = {}
     for f in case["funcs"]:
         d = {p: dflt[p] for p in f["params"] if p in dflt and p not in (f.get("bound") or {})}
+        d.update({p: over[p] for p in f["params"] if p in over and p not in (f.get("bound") or {})})
         if d:
             extra[f["name"]] = {"defaults": d}
-    w = dict(case=mapgen.describe(case), scoped=True, defaults=sorted(dflt))
+    w = dict(case=mapgen.describe(case), scoped=True, defaults=sorted(dflt), overridden_array_defaults=sorted(over))
     S = lambda n: tuple(f"sc.{x}" for x in n) if isinstance(n, tuple) else f"sc.{n}"  # noqa: E731
     folder = os.path.join(scratch, "run-scoped")
     try:
@@ -366,6 +378,8 @@ def check_scoped_and_defaults(v, case, env, exp_calls, scratch, i):
     v.count("scoped_runs")
     if dflt:
         v.count("runs_with_defaulted_roots")
+    if over:
+        v.count("runs_with_overridden_array_defaults")
     for f in case["funcs"]:
         for o in f["outs"]:
             exp = probes.render(env[o])
@@ -417,7 +431,7 @@ def finalize(agg, tier, seed):
             floors.append(f"structural class {c} hit only {agg.classes.get(c, 0)} times (< 10)")
     if agg.counters.get("second_runs_on_same_object", 0) < 200 or agg.counters.get("runs_with_a_None_valued_element", 0) < 50:
         floors.append("too few second runs on the same pipeline object / runs with a None-valued element")
-    if agg.counters.get("scoped_runs", 0) < 200 or agg.counters.get("runs_with_defaulted_roots", 0) < 20:
+    if agg.counters.get("scoped_runs", 0) < 200 or agg.counters.get("runs_with_defaulted_roots", 0) < 20 or agg.counters.get("runs_with_overridden_array_defaults", 0) < 20:
         floors.append("too few scoped runs / runs with scalar roots supplied as defaults")
     if agg.classes.get("root_ndarray-int", 0) < 30:
         floors.append("fewer than 30 cases with a numeric input array")
